@@ -740,8 +740,9 @@ func init() {
 		if ok1 {
 			// documented syntax of a fixed-width layout: success => same length, digits under
 			// 2006/01/02/15/04/05, literal bytes elsewhere (semantic validity stays uninterpreted)
-			if nec, fixed := timeLayoutNecessary(layout, strArg(a[1])); fixed {
+			if nec, suf, fixed := timeLayoutNecessary(layout, strArg(a[1])); fixed {
 				in.ex.assumeSoft(Implies(r[0], nec))
+				in.ex.assumeSoft(Implies(suf, r[0]))
 			}
 		}
 		if in.br(r[0]) {
@@ -1159,29 +1160,54 @@ func (in *Interp) refineStubs(m Model) []*Term {
 }
 
 // timeLayoutNecessary: for a layout made only of the fixed-width tokens 2006 01 02 15 04 05 and
-// literal bytes, a necessary condition for time.Parse(layout, val) to succeed.
-func timeLayoutNecessary(layout string, val Str) (*Term, bool) {
+// literal bytes: a necessary condition (syntax) and a sufficient condition (syntax + month 01..12,
+// day 01..28, hour <= 23, minute/second <= 59) for time.Parse(layout, val) to succeed. Days 29..31
+// stay uninterpreted (they depend on month and leap years).
+func timeLayoutNecessary(layout string, val Str) (nec, suf *Term, fixed bool) {
 	if val.hasAtoms() {
-		return nil, false
+		return nil, nil, false
 	}
 	type piece struct {
 		digits int
+		kind   byte // 'y','m','d','H','M','S'
 		lit    byte
 	}
 	var ps []piece
 	for i := 0; i < len(layout); {
+		rest := layout[i:]
 		switch {
-		case strings.HasPrefix(layout[i:], "2006"):
-			ps = append(ps, piece{digits: 4})
+		case strings.HasPrefix(rest, "2006"):
+			ps = append(ps, piece{digits: 4, kind: 'y'})
 			i += 4
-		case strings.HasPrefix(layout[i:], "01"), strings.HasPrefix(layout[i:], "02"), strings.HasPrefix(layout[i:], "15"),
-			strings.HasPrefix(layout[i:], "04"), strings.HasPrefix(layout[i:], "05"):
-			ps = append(ps, piece{digits: 2})
+		case strings.HasPrefix(rest, "01"):
+			ps = append(ps, piece{digits: 2, kind: 'm'})
+			i += 2
+		case strings.HasPrefix(rest, "02"):
+			ps = append(ps, piece{digits: 2, kind: 'd'})
+			i += 2
+		case strings.HasPrefix(rest, "15"):
+			ps = append(ps, piece{digits: 2, kind: 'H'})
+			i += 2
+		case strings.HasPrefix(rest, "04"):
+			ps = append(ps, piece{digits: 2, kind: 'M'})
+			i += 2
+		case strings.HasPrefix(rest, "05"):
+			ps = append(ps, piece{digits: 2, kind: 'S'})
 			i += 2
 		default:
 			c := layout[i]
-			if (c >= '0' && c <= '9') || (c >= 'A' && c <= 'Z') || (c >= 'a' && c <= 'z') || c == '_' || c == '.' || c == ',' {
-				return nil, false // could start another layout token: not handled
+			if (c >= '0' && c <= '9') || (c >= 'A' && c <= 'Z') || (c >= 'a' && c <= 'z') || c == '_' {
+				return nil, nil, false // could start another layout token: not handled
+			}
+			if (c == '.' || c == ',') && i+1 < len(layout) && (layout[i+1] == '0' || layout[i+1] == '9') {
+				// fractional seconds (.000 / .999) unless the run of 0s/9s is followed by another digit
+				j := i + 1
+				for j < len(layout) && layout[j] == layout[i+1] {
+					j++
+				}
+				if !(j < len(layout) && layout[j] >= '0' && layout[j] <= '9') {
+					return nil, nil, false
+				}
 			}
 			ps = append(ps, piece{lit: c})
 			i++
@@ -1197,9 +1223,9 @@ func timeLayoutNecessary(layout string, val Str) (*Term, bool) {
 		}
 	}
 	if len(bs) != n {
-		return FalseT, true
+		return FalseT, FalseT, true
 	}
-	var conj []*Term
+	var conj, sconj []*Term
 	k := 0
 	for _, p := range ps {
 		if p.digits == 0 {
@@ -1208,12 +1234,31 @@ func timeLayoutNecessary(layout string, val Str) (*Term, bool) {
 			continue
 		}
 		for j := 0; j < p.digits; j++ {
-			t := bs[k].Term()
+			t := bs[k+j].Term()
 			conj = append(conj, And(BVUle(BVC(8, '0'), t), BVUle(t, BVC(8, '9'))))
-			k++
 		}
+		if p.digits == 2 {
+			v := BVAdd(BVMul(BVSub(bs[k].Term(), BVC(8, '0')), BVC(8, 10)), BVSub(bs[k+1].Term(), BVC(8, '0')))
+			rg := func(lo, hi uint64) *Term { return And(BVUle(BVC(8, lo), v), BVUle(v, BVC(8, hi))) }
+			switch p.kind {
+			case 'm':
+				sconj = append(sconj, rg(1, 12))
+				conj = append(conj, rg(1, 12))
+			case 'd':
+				sconj = append(sconj, rg(1, 28))
+				conj = append(conj, rg(1, 31))
+			case 'H':
+				sconj = append(sconj, rg(0, 23))
+				conj = append(conj, rg(0, 23))
+			default:
+				sconj = append(sconj, rg(0, 59))
+				conj = append(conj, rg(0, 59))
+			}
+		}
+		k += p.digits
 	}
-	return And(conj...), true
+	nec = And(conj...)
+	return nec, And(nec, And(sconj...)), true
 }
 
 // ipNecessary: net.ParseIP(s) != nil => at least 2 bytes, all of them hex digits, '.' or ':'.
